@@ -227,6 +227,59 @@ func c04Sequential(w *fw.Worker, i int, r *fw.Rand) {
 			}
 			curPtr = e.D.View()
 		}
+		if st.Verifying && r.Chance(5) {
+			// the callback goroutine is busy (parked in the handler of install A) while an update B is rejected and
+			// another one, C, is installed: when B's OnWatchedError finally runs, its old config is the one that was
+			// current when B was rejected (A's), not whatever is current by then
+			if !e.FenceCallbacks(ctx) {
+				w.Inconclusive(i, "callback fence failed")
+				return
+			}
+			step := func(l *conc.Layer) (int, bool) {
+				res, _ := e.Report(ctx, 0, src, l, true)
+				ns := e.Model.Step(st, conc.In{Kind: conc.OpReport, Src: src, Layer: l, Blocking: true}, conc.Out{Res: res})
+				if len(ns) == 0 {
+					w.Violation(i, "blocking-report-result-disagrees-with-model", fmt.Sprintf("report of %s returned res=%d while a callback was parked", l, res), trace)
+					return res, false
+				}
+				st = ns[0].(conc.State)
+				return res, true
+			}
+			mark := len(e.CBLog())
+			gate := make(chan struct{})
+			e.CBGate = gate
+			la := e.RandLayer(r, 0, 0)
+			resA, ok := step(la)
+			parked := ok && resA == conc.ResNil && conc.WaitUntil(func() bool { return e.InCB() > 0 }, 5*time.Second)
+			var cfgA *conc.Cfg
+			rejectedB := false
+			if parked {
+				cfgA = e.D.View()
+				lb := e.RandLayer(r, 100, 0)
+				if resB, okB := step(lb); okB && resB == conc.ResRejected {
+					rejectedB = true
+					step(e.RandLayer(r, 0, 0))
+				}
+			}
+			e.CBGate = nil
+			close(gate)
+			if !e.FenceCallbacks(ctx) {
+				w.Inconclusive(i, "callback fence failed")
+				return
+			}
+			if rejectedB {
+				for _, ev := range e.CBLog()[mark:] {
+					if ev.Kind == "err" && ev.Old != cfgA {
+						w.Violation(i, "onwatchederror-old-not-current", fmt.Sprintf("OnWatchedError (delivered late, behind a parked callback) got old=%+v; the config current when the update was rejected was %+v", ev.OldFP, conc.FPOf(cfgA)), trace)
+						return
+					}
+				}
+				w.Count("late_error_callbacks_checked", 1)
+			}
+			curPtr = e.D.View()
+			lastBySrc[src] = nil
+			trace = append(trace, "parked-callback episode (install, rejection, install)")
+		}
 		before := len(e.CBLog())
 		_, tokBefore := e.D.ViewVersion()
 		tokBeforeOK := true
